@@ -243,7 +243,7 @@ func runC10(c *core.Ctx) {
 		s := s
 		c.Case("sample/"+s.in, func(t *core.T) {
 			t.NonTrivial()
-			dir := "/repo/xmlenc/testdata/"
+			dir := repoDir() + "/xmlenc/testdata/"
 			in, err1 := os.ReadFile(dir + s.in)
 			kb, err2 := os.ReadFile(dir + s.key)
 			var want []byte
